@@ -15,6 +15,7 @@ type gen struct {
 	r    *rand.Rand
 	nval int
 	busy bool // pool plans: callers also address a key the backend refuses
+	gete bool // the deployment serves GETE (L1-only, not the chunking handler): some binary gets use it
 }
 
 func newGen(seed uint64) *gen {
@@ -249,6 +250,10 @@ func (g *gen) dataOp(proto string, keys []string, now int64, richTTL bool, opq *
 		}
 		op.Noop = true
 		op.Key = ""
+	}
+	if g.gete && proto == "bin" && op.Kind == "get" && g.p(1, 4) {
+		// rend's extension: the same get as GETE / GETEQ (hits carry the expiry)
+		op.E = true
 	}
 	// a multi-key get owns the opaques base..base+n: keep later requests clear of them
 	if n := len(op.Keys); n > 8 {
